@@ -58,6 +58,14 @@ class Collector:
         self.closed = True
 
 
+class BothCollector(Collector):
+    """ONE stream object configured for both channels of a watcher (two handles on one log): files every chunk under
+    the channel name it is tagged with"""
+
+    def __call__(self, data):
+        self.sink[(data['pid'], data['name'], data['name'])].append(data['data'])
+
+
 def run_case(spec):
     res = CaseResult()
     rnd = rng_for(spec['seed'], 'C17', spec['idx'])
@@ -159,6 +167,13 @@ def _scenario(spec, rnd, d, logdir, res):
         'log': logdir, 'out': {'stdout': [[7, 5]] * 5, 'stderr': eo_script}})], numprocesses=1,
         stderr_stream={'stream': Collector('stderr', sink)}, copy_env=True, graceful_timeout=1, loop=loop))
     scripts.append({'stdout': None, 'stderr': eo_script})
+    # a writer whose two channels go to one and the same stream object
+    both_script = {ch: [[rnd.choice(SIZES[:6]), rnd.choice([0, 1, 5])] for _ in range(60)] for ch in ('stdout', 'stderr')}
+    both = BothCollector('both', sink)
+    watchers.append(Watcher('wr_both', live.PY, args=['-S', live.WORKER, json.dumps({
+        'log': logdir, 'out': {'stdout': both_script['stdout'], 'stderr': both_script['stderr']}})], numprocesses=1,
+        stdout_stream={'stream': both}, stderr_stream={'stream': both}, copy_env=True, graceful_timeout=1, loop=loop))
+    scripts.append({'stdout': both_script['stdout'], 'stderr': both_script['stderr'], 'name': 'wr_both'})
     # a writer that is started later, right after descriptor 0 became free in the daemon (a daemon whose standard
     # input was closed): its pipe gets descriptor number 0
     late_script = {ch: [[rnd.choice(SIZES[:6]), rnd.choice([0, 1, 5])] for _ in range(50)] for ch in ('stdout', 'stderr')}
